@@ -47,3 +47,9 @@ func ParseTestData(r io.Reader, sys resolve.System) (*TestArtifact, error) {
 func ParseTestFiles(sys resolve.System, files ...string) (*TestArtifact, error) {
 	return resolvetest.ParseFiles(sys, files...)
 }
+
+// DepTestKeys is internal/deptest.VerifKeys.
+func DepTestKeys() ([]dep.AttrKey, map[dep.AttrKey]bool) { return deptest.VerifKeys() }
+
+// VersionTestKeys is internal/versiontest.VerifKeys.
+func VersionTestKeys() ([]version.AttrKey, map[version.AttrKey]bool) { return versiontest.VerifKeys() }
